@@ -6,6 +6,8 @@ package cmd
 import (
 	"errors"
 	"fmt"
+	"os"
+	"path/filepath"
 	"regexp"
 	"strconv"
 	"strings"
@@ -52,7 +54,37 @@ func resetIndex(rootGoitPath string, logRecord *store.LogRecord, index *store.In
 	return nil
 }
 
-func resetWorkingTree(rootGoitPath string, index *store.Index) error {
+// removeObstructingFiles removes files that were tracked before the reset and stand in the way of the
+// snapshot: a file where the snapshot has a directory, or files beneath a directory where the snapshot has a file.
+// Files that were never tracked are not touched (an obstructing one makes the reset fail).
+func removeObstructingFiles(rootGoitPath string, index *store.Index, trackedBefore []string) error {
+	rootDir := filepath.Dir(rootGoitPath)
+	for _, old := range trackedBefore {
+		for _, entry := range index.Entries {
+			newPath := string(entry.Path)
+			if !strings.HasPrefix(newPath, old+"/") && !strings.HasPrefix(old, newPath+"/") {
+				continue
+			}
+			if err := os.Remove(filepath.Join(rootDir, old)); err != nil && !os.IsNotExist(err) {
+				return fmt.Errorf("fail to remove %s: %w", old, err)
+			}
+			// directories left empty between the removed file and the snapshot's file
+			for dir := filepath.Dir(old); len(dir) >= len(newPath) && strings.HasPrefix(old, newPath+"/"); dir = filepath.Dir(dir) {
+				if err := os.Remove(filepath.Join(rootDir, dir)); err != nil {
+					break
+				}
+			}
+			break
+		}
+	}
+
+	return nil
+}
+
+func resetWorkingTree(rootGoitPath string, index *store.Index, trackedBefore []string) error {
+	if err := removeObstructingFiles(rootGoitPath, index, trackedBefore); err != nil {
+		return err
+	}
 	for _, entry := range index.Entries {
 		obj, err := object.GetObject(rootGoitPath, entry.Hash)
 		if err != nil {
@@ -119,6 +151,12 @@ var resetCmd = &cobra.Command{
 			}
 		}
 
+		// paths tracked before the reset
+		var trackedBefore []string
+		for _, entry := range client.Idx.Entries {
+			trackedBefore = append(trackedBefore, string(entry.Path))
+		}
+
 		// reset index
 		if isMixed || isHard {
 			if err := resetIndex(client.RootGoitPath, logRecord, client.Idx); err != nil {
@@ -128,7 +166,7 @@ var resetCmd = &cobra.Command{
 
 		// reset working tree
 		if isHard {
-			if err := resetWorkingTree(client.RootGoitPath, client.Idx); err != nil {
+			if err := resetWorkingTree(client.RootGoitPath, client.Idx, trackedBefore); err != nil {
 				return fmt.Errorf("fail to reset working tree: %w", err)
 			}
 		}
